@@ -16,9 +16,13 @@ B_WARN = ()
 
 
 def units(tier, seed):
-    us = cases.fault_units(tier, seed, with_prims=True)
+    us = cases.fault_units(tier, seed, with_prims=True, thorough_budget=60, two_pairs_all=False)
     for u in us:
         u["seed"], u["tier"] = seed, tier
+        if tier == "thorough" and u["kind"] != "struct":
+            u["subst_base_only"] = True  # frames: every byte of the default base case, not of every deviated case (hours)
+        if tier == "thorough":
+            u["value_valid"] = False  # in-range substitutions are accepted or change the layout; C13 judges rejections (C04 runs them)
     us += bscope.units(tier, seed)
     for i in range(6):
         us.append({"kind": "front-ends", "stream": i, "label": f"front-ends:{i}", "seed": seed, "tier": tier})
